@@ -28,7 +28,7 @@ from ..futil import funsor, Tensor, Number, Variable, Bint, Real, Reals, ops
 
 from funsor.gaussian import Gaussian, _compute_offsets
 from funsor.cnf import Contraction
-from funsor.terms import Cat, Slice, Funsor
+from funsor.terms import Cat, Slice, Funsor, Subs
 
 RTOL = 1e-9
 # Regions of open findings kept out of the clean stream (each has a dedicated stream below).
@@ -529,26 +529,41 @@ def gen_value(rng, shape, batch_pool):
     return t, (lambda p: data[tuple(p[k] for k, _ in deps)]), dict(deps=deps, data=data.tolist())
 
 
-def op_subs_real(rng, cur, obs, spec):
+def op_subs_real(rng, cur, obs, spec, chosen=None, all_variants=False):
+    """Substitution of real values for some or all real inputs.  The same substitution is offered in several
+    *variants* that must all give the same function: kwargs call (funsor sorts them into input order), a directly
+    constructed Subs(g, pairs) for every permutation of the pairs, and a chained call whose first step stays lazy
+    (g(k=u*u)(others…, u=r)) so that the fused pairs reach Gaussian.eager_subs out of input order.  Chains pick one
+    variant at random; the dedicated stream checks all of them."""
     if obs.g is None:
         return None
     names = [k for k, _ in obs.reals]
-    kind = rng.random()
-    if kind < 0.3:
-        chosen = list(names)
-    else:
-        chosen = [k for k in names if rng.random() < 0.5] or [rng.choice(names)]
+    if chosen is None:
+        kind = rng.random()
+        if kind < 0.3:
+            chosen = list(names)
+        else:
+            chosen = [k for k in names if rng.random() < 0.5] or [rng.choice(names)]
     pool = list(obs.batch.items())
     free_b = [n for n in BATCH_NAMES if n not in obs.batch]
     if free_b and rng.random() < 0.4:
         pool.append((free_b[0], rng.choice([1, 2])))
+    lazy_k = rng.choice(chosen)
+    uname = [n for n in ["t0", "t1", "t2"] if n not in spec.reals][0]
     vals = {}
     descs = {}
     batch = dict(spec.batch)
     kwargs = {}
+    root = None
     for k in chosen:
         t, get, d = gen_value(rng, spec.reals[k], pool)
-        if spec.reals[k] == () and not d["deps"] and rng.random() < 0.15:
+        if k == lazy_k:
+            # value of the lazily substituted input is the square of a dyadic tensor r (exact)
+            root = t
+            d = dict(d, squared=True)
+            t = Tensor(np.asarray(t.data) ** 2, t.inputs)
+            get = (lambda p, g_=get: np.asarray(g_(p)) ** 2)
+        elif spec.reals[k] == () and not d["deps"] and rng.random() < 0.1:
             t = Number(float(d["data"]))
         vals[k] = get
         descs[k] = d
@@ -567,12 +582,33 @@ def op_subs_real(rng, cur, obs, spec):
             return f(full)
         return g
 
-    def model(p):
-        w, P, t = obs.at(sub_point(p, obs.batch))
-        pt = [[Q(k), [F(v) for v in np.asarray(vals[k](p)).reshape(-1)]] for k in chosen]
-        return f"C12 subsreal {sx(g_sexp(obs.layout, w, P))} {sx(pt)}", t
-    return dict(run=lambda: cur(**kwargs), spec=Fn(batch, rest, at), model=model, exact=True, rank=obs.rank,
-                desc=dict(op="subs_real", values=descs))
+    def model_for(order):
+        def model(p):
+            w, P, t = obs.at(sub_point(p, obs.batch))
+            pt = [[Q(k), [F(v) for v in np.asarray(vals[k](p)).reshape(-1)]] for k in order]
+            return f"C12 subsreal {sx(g_sexp(obs.layout, w, P))} {sx(pt)}", t
+        return model
+    fn = Fn(batch, rest, at)
+    in_order = [k for k in names if k in chosen]
+    variants = [("call", in_order, lambda: cur(**kwargs))]
+    perms = list(itertools.permutations(in_order))
+    if len(perms) > 6:
+        perms = rng.sample(perms, 6)
+    for perm in perms:
+        variants.append(("subs", list(perm), lambda perm=perm: Subs(cur, tuple((k, kwargs[k]) for k in perm))))
+    others = [k for k in in_order if k != lazy_k]
+    uvar = Variable(uname, dom(spec.reals[lazy_k]))
+    for oth in ([others, list(reversed(others))] if len(others) > 1 else [others]):
+        variants.append(("chained", [lazy_k] + oth,
+                         lambda oth=oth: cur(**{lazy_k: uvar * uvar})(**dict([(k, kwargs[k]) for k in oth]
+                                                                            + [(uname, root)]))))
+    steps = [dict(run=run, spec=fn, model=model_for(order), exact=True, rank=obs.rank,
+                  desc=dict(op="subs_real", variant=label, pair_order=order, lazy_first=lazy_k, values=descs))
+             for label, order, run in variants]
+    step = dict(rng.choice(steps))
+    if all_variants:
+        step["variants"] = steps
+    return step
 
 
 def op_subs_int(rng, cur, obs, spec):
@@ -1120,6 +1156,8 @@ class Env:
 
 def run_case(env, case_seed, tier, counts, stream="clean"):
     """One chain.  Returns (n_steps_checked, nontrivial_key, sample) or raises CaseFail with witness."""
+    if stream == "subs-order":
+        return subs_order_case(env, case_seed, tier, counts)
     rng = random.Random(case_seed)
     order = gen_signature(rng)
     history = []
@@ -1291,6 +1329,46 @@ def offsets_stream(ctx, n):
     ctx.count("offsets-cases", n)
 
 
+def subs_order_case(env, case_seed, tier, counts):
+    """>= 3 real inputs, >= 2 grounded, >= 1 free: every permutation of the substitution pairs (direct Subs), the
+    kwargs call and the chained/fused call must give the same Gaussian."""
+    rng = random.Random(case_seed)
+    nreal = rng.choice([3, 3, 4])
+    reals = [("r", k, rng.choice([(), (), (2,), (1,), (1, 2)])) for k in rng.sample(REAL_NAMES, nreal)]
+    batch = [("b", k, rng.choice([1, 2, 3])) for k in rng.sample(BATCH_NAMES, rng.choice([0, 1, 1, 2]))]
+    order = reals + batch
+    rng.shuffle(order)
+    dim = sum(numel(s) for _, _, s in reals)
+    cur, spec, exact, desc = make_gaussian(rng, order, rank=rng.randint(1, 2 * dim))
+    obs = Obs(cur)
+    names = [k for k, _ in obs.reals]
+    ngr = rng.randint(2, len(names) - 1)
+    chosen = rng.sample(names, ngr)
+    step = op_subs_real(rng, cur, obs, spec, chosen=chosen, all_variants=True)
+    n_ok = 0
+    for v in step["variants"]:
+        history = [desc, v["desc"]]
+        label = v["desc"]["variant"]
+        try:
+            res = v["run"]()
+        except DECLINE_ERRORS as e:
+            counts(f"subs-order:{label}:declined:{type(e).__name__}")
+            continue
+        rdim = sum(numel(sh) for sh in v["spec"].reals.values())
+        try:
+            check_step(env, rng, res, v, exact and not (rdim and v["rank"] > 2 * rdim), counts)
+        except Declined as e:
+            counts(f"subs-order:{label}:declined:{e}")
+            continue
+        except CaseFail as cf:
+            cf.kw["witness"] = dict(case_seed=case_seed, stream="subs-order", tier=tier, history=history)
+            raise
+        in_order = v["desc"]["pair_order"] == [k for k in names if k in chosen]
+        counts(f"subs-order:{label}:" + ("input-order" if in_order else "out-of-order"))
+        n_ok += 1
+    return n_ok, (case_seed, "subs-order"), dict(case_seed=case_seed, ops=["gaussian", "subs_real x all orders"])
+
+
 def finding_stream(ctx, env, key, n):
     """Dedicated stream of an open finding (region kept out of the clean stream, see AVOID)."""
     fid = AVOID[key]
@@ -1326,7 +1404,9 @@ def correspond(ctx, use_driver=True, volume=None):
                 "(precision|covariance|scale_tril|prec_sqrt); operations add, real substitution (partial/full, "
                 "batch-dependent values), integer indexing (int, slice, index tensor, rename), real renaming/swaps, "
                 "align, affine substitution (15 expression forms, shared/new variables), Cat along a batch input "
-                "(rank padding), plate fusion.  Non-trivial = at least one operation checked after construction; "
+                "(rank padding), plate fusion; plus a stream of real substitutions into Gaussians with 3-4 real inputs "
+                "(>= 2 grounded, >= 1 free) given as kwargs, as Subs(g, pairs) in every permutation of the pairs, and "
+                "chained through a lazy first step.  Non-trivial = at least one operation checked after construction; "
                 "distinct by seed and operation sequence.")
     env = Env(ctx, use_driver)
     n = volume or (700 if ctx.tier == "quick" else 14000)
@@ -1342,6 +1422,15 @@ def correspond(ctx, use_driver=True, volume=None):
         if nsteps:
             ctx.case(sample=sample, nontrivial_key=key)
             ctx.count(f"chain-length:{nsteps}")
+    for _ in range(60 if ctx.tier == "quick" else 1200):
+        seed = ctx.rng.getrandbits(48)
+        try:
+            nsteps, key, sample = run_case(env, seed, ctx.tier, ctx.count, stream="subs-order")
+        except CaseFail as cf:
+            report(ctx, cf, "subs-order")
+            continue
+        if nsteps:
+            ctx.case(sample=sample, nontrivial_key=key)
     for key in AVOID:
         finding_stream(ctx, env, key, 12 if ctx.tier == "quick" else 60)
     float_decline_stream(ctx)
